@@ -47,6 +47,7 @@ func (m *Machine) normStr(ln *Term, b []*Term) *StrV {
 
 // newSymString creates a fresh symbolic string of capacity cap (ASCII bytes).
 func (m *Machine) newSymString(name string, cap int) *StrV {
+	name = m.freshName(name)
 	ln := m.newInput(name+".len", BV(64), "len")
 	b := make([]*Term, cap)
 	for i := 0; i < cap; i++ {
